@@ -540,6 +540,9 @@ type Contract struct {
 	GhostInit []GhostAssign
 	// GhostArgs: instantiation of callee ghost parameters at call sites
 	GhostArgs []GhostArg
+	// Refines: interface-method contracts this concrete method is proved to
+	// satisfy under the type's coupling (`refines types.SegmentWriter.Append`)
+	Refines []string
 }
 
 type GhostArg struct {
@@ -579,6 +582,22 @@ type ContractSet struct {
 	Lemmas  []*Lemma
 	Files   []string
 	NLines  int
+	// Couplings: "pkg.Type" -> abstract (ghost) field of the interface view ->
+	// expression over `self` (a value of the concrete type) that defines it
+	Couplings map[string]map[string]*Coupling
+	// ChanInvs: "pkg.Type.field" -> invariant over `msg` that every value sent
+	// on the channel held in that field satisfies (proved at the sends under
+	// contract, assumed of every received value)
+	ChanInvs map[string]*Clause
+}
+
+// Coupling defines one ghost field of an interface-level view for a concrete
+// type: `coupling Writer.last = self.commitIdx`.
+type Coupling struct {
+	Type, Field, Src string
+	E                Expr
+	File             string
+	Line             int
 }
 
 // ResultContract says that a function-valued result, when non-nil, behaves as
@@ -617,7 +636,7 @@ func splitLabels(kw string) (string, []string) {
 
 // LoadContracts reads all *_verif.go contract files below root plus spec dir.
 func LoadContracts(dirs []string) (*ContractSet, error) {
-	cs := &ContractSet{Funcs: map[string]*Contract{}, Preds: map[string]*Predicate{}, Atomics: map[string]string{}}
+	cs := &ContractSet{Funcs: map[string]*Contract{}, Preds: map[string]*Predicate{}, Atomics: map[string]string{}, Couplings: map[string]map[string]*Coupling{}, ChanInvs: map[string]*Clause{}}
 	for _, d := range dirs {
 		matches, _ := filepath.Glob(filepath.Join(d, "*_verif.go"))
 		more, _ := filepath.Glob(filepath.Join(d, "*.spec"))
@@ -751,6 +770,56 @@ func (cs *ContractSet) loadFile(path string) error {
 				}
 			}
 			pendingPred = &Predicate{Name: name, Params: params, Src: strings.TrimSpace(rest[eq+1:])}
+			cur = nil
+			curLemma = nil
+			continue
+		case "chaninv":
+			// chaninv LogStore.verifyCh msg.Err == nil
+			if err := finishClause(i); err != nil {
+				return err
+			}
+			if err := finishPred(i); err != nil {
+				return err
+			}
+			if len(fields) < 3 {
+				return fail(i, "malformed chaninv (want: chaninv Type.field expr)")
+			}
+			c := &Clause{Kind: "chaninv", Labels: labels, Src: strings.TrimSpace(strings.TrimPrefix(rest, fields[1])), Line: i + 1, File: path}
+			ce, err := ParseExpr(c.Src)
+			if err != nil {
+				return fail(i, "%v", err)
+			}
+			c.E = ce
+			cs.ChanInvs[pkg+"."+fields[1]] = c
+			cur = nil
+			curLemma = nil
+			continue
+		case "coupling":
+			// coupling Writer.last = self.commitIdx
+			if err := finishClause(i); err != nil {
+				return err
+			}
+			if err := finishPred(i); err != nil {
+				return err
+			}
+			eq := strings.Index(rest, "=")
+			if eq < 0 {
+				return fail(i, "malformed coupling (want: coupling Type.field = expr)")
+			}
+			lhs := strings.TrimSpace(rest[:eq])
+			dot := strings.LastIndex(lhs, ".")
+			if dot < 0 {
+				return fail(i, "malformed coupling (want: coupling Type.field = expr)")
+			}
+			ce, err := ParseExpr(strings.TrimSpace(rest[eq+1:]))
+			if err != nil {
+				return fail(i, "%v", err)
+			}
+			tk := pkg + "." + lhs[:dot]
+			if cs.Couplings[tk] == nil {
+				cs.Couplings[tk] = map[string]*Coupling{}
+			}
+			cs.Couplings[tk][lhs[dot+1:]] = &Coupling{Type: tk, Field: lhs[dot+1:], Src: strings.TrimSpace(rest[eq+1:]), E: ce, File: path, Line: i + 1}
 			cur = nil
 			curLemma = nil
 			continue
@@ -910,6 +979,8 @@ func (cs *ContractSet) loadFile(path string) error {
 			}
 		case "implements":
 			cur.Implements = rest
+		case "refines":
+			cur.Refines = append(cur.Refines, strings.Fields(rest)...)
 		case "inlinecall":
 			cur.InlineCalls = append(cur.InlineCalls, rest)
 		case "resultcontract":
@@ -1028,7 +1099,7 @@ func (cs *ContractSet) loadFile(path string) error {
 			lastClause.Src += " " + body
 		}
 		if kw != "assigns" {
-			if _, isKw := map[string]bool{"props": true, "requires": true, "ensures": true, "tryensures": true, "alloc_bound": true, "site": true, "loop": true, "inline": true, "pure": true, "trusted": true, "noverify": true, "may_panic": true, "callback": true, "ghostparam": true, "doc": true, "implements": true, "inlinecall": true, "resultcontract": true, "implbind": true, "cbinv": true, "ghostset": true, "ghostinit": true, "ghostarg": true}[kw]; isKw {
+			if _, isKw := map[string]bool{"props": true, "requires": true, "ensures": true, "tryensures": true, "alloc_bound": true, "site": true, "loop": true, "inline": true, "pure": true, "trusted": true, "noverify": true, "may_panic": true, "callback": true, "ghostparam": true, "doc": true, "implements": true, "refines": true, "inlinecall": true, "resultcontract": true, "implbind": true, "cbinv": true, "ghostset": true, "ghostinit": true, "ghostarg": true}[kw]; isKw {
 				inAssigns = false
 			}
 		}
